@@ -172,7 +172,7 @@ func cmdCheck(argv []string) int {
 		if *only != "" && !strings.Contains(k, *only) {
 			continue
 		}
-		fn := p.funcs[k]
+		fn := p.findFunc(k)
 		if fn == nil {
 			drift = append(drift, fmt.Sprintf("anchor %s missing (contract at %s:%d)", calleeShort(k), p.db.Funcs[k].File, p.db.Funcs[k].Line))
 			continue
@@ -276,6 +276,7 @@ func cmdCheck(argv []string) int {
 		fmt.Fprintf(os.Stderr, "govc: contract/translation error: %s\n", e)
 	}
 	var violations []string
+	var deadReturns []string
 	emitViolation := func(name, body string, confirmed bool) {
 		os.MkdirAll(replayDir, 0o755)
 		fn := filepath.Join(replayDir, fmt.Sprintf("%s-%s.txt", cfg.ID, sanitizeFile(name)))
@@ -298,7 +299,25 @@ func cmdCheck(argv []string) int {
 		body, confirmed := describeFailure(p, &cfg, r, root, *repo, scratch)
 		emitViolation(r.Obl.Name, body, confirmed)
 	}
+	// Vacuity: a contradictory precondition, or a function none of whose
+	// returns is reachable, makes every obligation hold vacuously.  A single
+	// unreachable return (dead code under the precondition) is only reported.
+	reachableRet := map[string]bool{}
+	hasRet := map[string]bool{}
+	for _, r := range sres {
+		if r.Obl.Vacuity && strings.Contains(r.Obl.Name, "#cover[return") {
+			hasRet[r.Obl.Func] = true
+			if r.Status != "unsat" {
+				reachableRet[r.Obl.Func] = true
+			}
+		}
+	}
 	for _, r := range vacuous {
+		isRet := strings.Contains(r.Obl.Name, "#cover[return")
+		if isRet && reachableRet[r.Obl.Func] {
+			deadReturns = append(deadReturns, r.Obl.Name+" at "+p.relPos0(r.Obl.Pos))
+			continue
+		}
 		fmt.Fprintf(os.Stderr, "govc: VACUITY: %s is unreachable / assumptions are contradictory (%s)\n", r.Obl.Name, r.Obl.Pos)
 		emitViolation(r.Obl.Name, "undecided: vacuity guard failed: "+r.Obl.Name+" at "+r.Obl.Pos.String()+" is unreachable under the contract's assumptions, so obligations behind it would hold vacuously.\n", false)
 	}
@@ -314,6 +333,9 @@ func cmdCheck(argv []string) int {
 	// evidence
 	if !*noEvidence && *only == "" {
 		writeEvidence(root, &cfg, *tier, seed, results, sres, nObl, nDis, nCover, nCoverOK, backends, solverTime, p, time.Since(start).Seconds(), violations, knownHit, genSecs, solveSecs)
+	}
+	for _, d := range deadReturns {
+		fmt.Fprintf(os.Stderr, "govc: note: return unreachable under the contract's precondition: %s\n", d)
 	}
 	fmt.Fprintf(os.Stderr, "govc: %s: %d functions, %d obligations, %d discharged, %d covers (%d reachable), load %.1fs gen %.1fs solve %.1fs\n",
 		cfg.ID, len(results), nObl, nDis, nCover, nCoverOK, p.loadSecs, genSecs, solveSecs)
